@@ -7,7 +7,7 @@ from vlib import core
 ID = "C01"
 MODULE = "RkVerif.Props.C01"
 DRIVER = "drv_c01"
-THOROUGH_MODULES = ["RkVerif.Model.C01", "RkVerif.Lemmas.C01", "RkVerif.Lemmas.C01Live", "RkVerif.Lemmas.C01Pipe", "RkVerif.Lemmas.C01Blocks"]
+THOROUGH_MODULES = ["RkVerif.Gen.C01Table", "RkVerif.Model.C01", "RkVerif.Lemmas.C01", "RkVerif.Lemmas.C01Live", "RkVerif.Lemmas.C01Pipe", "RkVerif.Lemmas.C01Blocks"]
 
 HW = os.cpu_count() or 1
 _INIT = "rkcommon/tasking/detail/tasking_system_init.cpp"
@@ -86,6 +86,46 @@ def regenerate(rep):
             h["flags"].append("-DC01_NO_SMALL_BLOCKS")
     if not _small_blocks_compile:
         rep.notes.append("parallel_in_blocks_of does not compile for unsigned char / short: " + (e.strip().splitlines() or [""])[0][:300])
+    return _regen_steal_table(rep)
+
+
+GEN_TABLE = os.path.join(core.LEAN, "RkVerif", "Gen", "C01Table.lean")
+_STEAL_BOUNDS = {   # loop condition on checkCount (white space removed) -> Lean expression in n = m_NumThreads
+    "checkCount<m_NumThreads": "n",
+    "checkCount+1<m_NumThreads": "n - 1",
+    "checkCount<m_NumThreads-1": "n - 1",
+    "checkCount<=m_NumThreads": "n + 1",
+    "checkCount+1<=m_NumThreads": "n",
+}
+
+
+def _regen_steal_table(rep):
+    """Read the bound and the probe expression of TryRunTask's steal loop from TaskScheduler.cpp and rewrite
+    lean/RkVerif/Gen/C01Table.lean (fail closed: anything else than the recognised shapes is a broken tie)."""
+    src = open(os.path.join(core.REPO, "rkcommon/tasking/detail/enkiTS/TaskScheduler.cpp")).read()
+    src = re.sub(r"//[^\n]*", "", src)
+    m = re.search(r"bool\s+TaskScheduler::TryRunTask\s*\([^)]*\)\s*\{(.*?)\n\}", src, re.S)
+    if not m:
+        return dict(kind="shape-extraction-failed", error="TaskScheduler::TryRunTask not found")
+    body = re.sub(r"\s+", "", m.group(1))
+    w = re.search(r"while\(!bHaveTask&&([^)]*)\)\{threadToCheck=([^;]*);if\(threadToCheck!=threadNum\)\{bHaveTask=m_pPipesPerThread\[threadToCheck\]\.ReaderTryReadBack\(&subTask\);\}\+\+checkCount;\}", body)
+    if not w or "uint32_tcheckCount=0;" not in body:
+        return dict(kind="shape-extraction-failed", error="the steal loop of TryRunTask does not have the recognised shape",
+                    note="the model of the steal order (stealProbes) is no longer justified for this tree")
+    cond, probe = w.group(1), w.group(2)
+    if probe != "(hintPipeToCheck_io_+checkCount)%m_NumThreads" or cond not in _STEAL_BOUNDS:
+        return dict(kind="shape-extraction-failed", error="steal loop: condition %r, probe %r not recognised" % (cond, probe))
+    txt = ("-- GENERATED by props/c01.py (regenerate) from rkcommon/tasking/detail/enkiTS/TaskScheduler.cpp — do not edit.\n"
+           "import RkVerif.Model.C01\nnamespace RkVerif.C01.Gen\n\n"
+           "/-- loop bound of TryRunTask's steal loop as written in the source: `%s` -/\n"
+           "def stealBound (n : Nat) : Nat := %s\n\nend RkVerif.C01.Gen\n" % (re.sub(r"([<=+-]+)", r" \1 ", cond), _STEAL_BOUNDS[cond]))
+    with core.LeanLock():
+        old = open(GEN_TABLE).read() if os.path.exists(GEN_TABLE) else None
+        if old != txt:
+            with open(GEN_TABLE + ".tmp", "w") as fh:
+                fh.write(txt)
+            os.replace(GEN_TABLE + ".tmp", GEN_TABLE)
+    rep.coverage["steal_loop"] = dict(condition=cond, probe=probe, bound=_STEAL_BOUNDS[cond])
     return None
 
 
